@@ -618,4 +618,203 @@ theorem rep_consumes (c : Cls) (lo : Nat) (hi : Option Nat) (g : Bool) (s : Str)
   | none => exact key _ (Nat.le_refl _) (by simpa [endsP] using h)
   | some h' => exact key _ (Nat.min_le_left _ _) (by simpa [endsP] using h)
 
+/-! ### which prefixes a match can consume -/
+
+/-- remainders of the known prefix `bs` after a class repeat (minimum `lo`; the maximum is ignored:
+    over-approximation) that has consumed `k` characters so far -/
+def repRem (c : Cls) (lo : Nat) : Str → Nat → List Str
+  | [], _ => [[]]
+  | b :: t, k => (if lo ≤ k then [b :: t] else []) ++ (if c.test b then repRem c lo t (k + 1) else [])
+
+/-- over-approximation of what can be left of a known input prefix `bs` after the pattern matched
+    from the start of `bs` ([] also stands for "consumed all of `bs` and possibly more") -/
+def rem : Rx → Str → List Str
+  | .eps, bs => [bs]
+  | .fail, _ => []
+  | .cls c, bs => match bs with
+    | [] => [[]]
+    | b :: t => if c.test b then [t] else []
+  | .rep c lo _ _, bs => repRem c lo bs 0
+  | .opt body, bs => rem body bs ++ [bs]
+  | .cat a b, bs => (rem a bs).flatMap (rem b)
+  | .alt a b, bs => rem a bs ++ rem b bs
+  | .group _ body, bs => rem body bs
+  | .ahead _, bs => [bs]
+  | .behind _, bs => [bs]
+  | .eos, bs => [bs]
+  | .bos, bs => [bs]
+  | .unmodelled _, _ => []
+
+theorem endsP_ge (r : Rx) : ∀ (s : Str) (i j : Nat), j ∈ endsP r s i → i ≤ j := by
+  induction r with
+  | eps => intro s i j h; simp [endsP] at h; omega
+  | fail => intro s i j h; simp [endsP] at h
+  | cls c =>
+    intro s i j h
+    simp only [endsP] at h
+    cases hg : s[i]? with
+    | none => simp [hg] at h
+    | some b =>
+      by_cases ht : c.test b = true
+      · simp [hg, ht] at h; omega
+      · simp [hg, ht] at h
+  | rep c lo hi g =>
+    intro s i j h
+    have key : ∀ n, j ∈ (if n < lo then [] else (repCounts n lo g).map fun k => i + k) → i ≤ j := by
+      intro n hj
+      by_cases hlt : n < lo
+      · simp [hlt] at hj
+      · simp only [hlt, if_false, List.mem_map] at hj
+        obtain ⟨k, _, rfl⟩ := hj
+        omega
+    cases hi with
+    | none => exact key _ (by simpa [endsP] using h)
+    | some h' => exact key _ (by simpa [endsP] using h)
+  | opt body ih =>
+    intro s i j h
+    simp only [endsP, List.mem_append, List.mem_singleton] at h
+    rcases h with h | h
+    · exact ih s i j h
+    · omega
+  | cat a b iha ihb =>
+    intro s i j h
+    simp only [endsP, List.mem_flatMap] at h
+    obtain ⟨m, hm, hj⟩ := h
+    exact Nat.le_trans (iha s i m hm) (ihb s m j hj)
+  | alt a b iha ihb =>
+    intro s i j h
+    simp only [endsP, List.mem_append] at h
+    rcases h with h | h
+    · exact iha s i j h
+    · exact ihb s i j h
+  | group idx body ih => intro s i j h; exact ih s i j h
+  | ahead l => intro s i j h; simp only [endsP] at h; split at h <;> simp at h; omega
+  | behind l => intro s i j h; simp only [endsP] at h; split at h <;> simp at h; omega
+  | eos => intro s i j h; simp only [endsP] at h; split at h <;> simp at h; omega
+  | bos => intro s i j h; simp only [endsP] at h; split at h <;> simp at h; omega
+  | unmodelled w => intro s i j h; simp [endsP] at h
+
+theorem repRem_mem (c : Cls) (lo : Nat) : ∀ (bs : Str) (k0 k : Nat),
+    (∀ m, m < k → ∀ h : m < bs.length, c.test bs[m] = true) → lo ≤ k0 + k → bs.drop k ∈ repRem c lo bs k0 := by
+  intro bs
+  induction bs with
+  | nil => intro k0 k _ _; simp [repRem]
+  | cons b t ih =>
+    intro k0 k hall hlo
+    cases k with
+    | zero =>
+      simp only [List.drop_zero, repRem, List.mem_append]
+      left
+      simp [show lo ≤ k0 by omega]
+    | succ k' =>
+      have hb : c.test b = true := hall 0 (by omega) (by simp)
+      simp only [List.drop_succ_cons, repRem, hb, if_true, List.mem_append]
+      right
+      refine ih (k0 + 1) k' ?_ (by omega)
+      intro m hm hlt
+      have := hall (m + 1) (by omega) (by simp; omega)
+      simpa using this
+
+theorem getElem_of_drop_eq (s bs t : Str) (i m : Nat) (h : s.drop i = bs ++ t) (hm : m < bs.length) :
+    s[i + m]? = some bs[m] := by
+  have : (s.drop i)[m]? = (bs ++ t)[m]? := by rw [h]
+  rw [List.getElem?_drop] at this
+  rw [this, List.getElem?_append_left hm]
+  simp
+
+theorem drop_drop_eq (s bs t : Str) (i m : Nat) (h : s.drop i = bs ++ t) :
+    s.drop (i + m) = bs.drop m ++ t.drop (m - bs.length) := by
+  rw [← List.drop_drop, h, List.drop_append]
+
+/-- soundness: whatever the pattern consumes from position `i`, what is left of the known prefix is
+    among `rem` -/
+theorem rem_sound (r : Rx) : ∀ (s : Str) (i j : Nat) (bs t : Str), j ∈ endsP r s i → s.drop i = bs ++ t →
+    bs.drop (j - i) ∈ rem r bs := by
+  induction r with
+  | eps => intro s i j bs t h _; simp [endsP] at h; subst h; simp [rem]
+  | fail => intro s i j bs t h _; simp [endsP] at h
+  | cls c =>
+    intro s i j bs t h hd
+    simp only [endsP] at h
+    cases hg : s[i]? with
+    | none => simp [hg] at h
+    | some b =>
+      by_cases ht : c.test b = true
+      · simp [hg, ht] at h
+        subst h
+        cases bs with
+        | nil => simp [rem]
+        | cons b' t' =>
+          have := getElem_of_drop_eq s (b' :: t') t i 0 hd (by simp)
+          simp [hg] at this
+          subst this
+          simp [rem, ht]
+      · simp [hg, ht] at h
+  | rep c lo hi g =>
+    intro s i j bs t h hd
+    have key : ∀ n, n ≤ runLen c s i (s.length - i) →
+        j ∈ (if n < lo then [] else (repCounts n lo g).map fun k => i + k) → bs.drop (j - i) ∈ rem (.rep c lo hi g) bs := by
+      intro n hn hj
+      by_cases hlt : n < lo
+      · simp [hlt] at hj
+      · simp only [hlt, if_false, List.mem_map] at hj
+        obtain ⟨k, hk, rfl⟩ := hj
+        have hkle := (mem_repCounts n lo g k (by omega)).mp hk
+        simp only [rem, Nat.add_sub_cancel_left]
+        refine repRem_mem c lo bs 0 k ?_ (by omega)
+        intro m hm hlt'
+        obtain ⟨b, hb, htb⟩ := runLen_ge c s (s.length - i) i m (by omega)
+        have := getElem_of_drop_eq s bs t i m hd hlt'
+        rw [hb] at this
+        simp only [Option.some.injEq] at this
+        rw [← this]; exact htb
+    cases hi with
+    | none => exact key _ (Nat.le_refl _) (by simpa [endsP] using h)
+    | some h' => exact key _ (Nat.min_le_left _ _) (by simpa [endsP] using h)
+  | opt body ih =>
+    intro s i j bs t h hd
+    simp only [endsP, List.mem_append, List.mem_singleton] at h
+    simp only [rem, List.mem_append, List.mem_singleton]
+    rcases h with h | h
+    · exact Or.inl (ih s i j bs t h hd)
+    · subst h; right; simp
+  | cat a b iha ihb =>
+    intro s i j bs t h hd
+    simp only [endsP, List.mem_flatMap] at h
+    obtain ⟨m, hm, hj⟩ := h
+    have him := endsP_ge a s i m hm
+    have hmj := endsP_ge b s m j hj
+    simp only [rem, List.mem_flatMap]
+    refine ⟨bs.drop (m - i), iha s i m bs t hm hd, ?_⟩
+    have hd' : s.drop m = bs.drop (m - i) ++ t.drop (m - i - bs.length) := by
+      have := drop_drop_eq s bs t i (m - i) hd
+      rwa [show i + (m - i) = m by omega] at this
+    have := ihb s m j (bs.drop (m - i)) _ hj hd'
+    rwa [List.drop_drop, show (m - i) + (j - m) = j - i by omega] at this
+  | alt a b iha ihb =>
+    intro s i j bs t h hd
+    simp only [endsP, List.mem_append] at h
+    simp only [rem, List.mem_append]
+    rcases h with h | h
+    · exact Or.inl (iha s i j bs t h hd)
+    · exact Or.inr (ihb s i j bs t h hd)
+  | group idx body ih => intro s i j bs t h hd; exact ih s i j bs t h hd
+  | ahead l => intro s i j bs t h _; simp only [endsP] at h; split at h <;> simp at h; subst h; simp [rem]
+  | behind l => intro s i j bs t h _; simp only [endsP] at h; split at h <;> simp at h; subst h; simp [rem]
+  | eos => intro s i j bs t h _; simp only [endsP] at h; split at h <;> simp at h; subst h; simp [rem]
+  | bos => intro s i j bs t h _; simp only [endsP] at h; split at h <;> simp at h; subst h; simp [rem]
+  | unmodelled w => intro s i j bs t h _; simp [endsP] at h
+
+/-- if nothing can be left, no string with that prefix matches -/
+theorem no_match_of_rem_nil (r : Rx) (bs t : Str) (h : rem r bs = []) : isMatch r (bs ++ t) = false := by
+  cases hm : isMatch r (bs ++ t) with
+  | false => rfl
+  | true =>
+    exfalso
+    rw [isMatch_iff] at hm
+    obtain ⟨j, hj⟩ := List.exists_mem_of_ne_nil _ hm
+    have := rem_sound r (bs ++ t) 0 j bs t hj (by simp)
+    rw [h] at this
+    simp at this
+
 end Astm.Rx
